@@ -37,3 +37,26 @@ register(Theorem(
     note="a checksum-valid Base58Check string whose payload is empty or starts with an unknown version byte is never mapped to a script",
     witnesses=[{"d": b""}, {"d": b"\x01" + b"\x11" * 20}, {"d": b"\x80" + b"\x11" * 32}],
 ))
+
+
+# ---- segwit addresses: BOUNDED stand-in (the Bech32 layer is outside the verifier's reach, see C06)
+def _segwit_inputs():
+    import random
+    rng = random.Random(8)
+    for net in ("mainnet", "testnet", "regtest"):
+        for v in range(17):
+            for n in ((20, 32) if v == 0 else range(2, 41)):
+                for prog in (bytes(n), b"\xff" * n, bytes(rng.getrandbits(8) for _ in range(n))):
+                    yield {"net": net, "v": v, "prog": prog}
+
+
+register(Theorem(
+    "C08.segwit.bounded", P, params={"net": ("enum", ["mainnet", "testnet", "regtest"]), "v": "int", "prog": "bytes"},
+    body=f"{SP}(bits.utils.segwit_addr(prog, witness_version=v, network=net))",
+    cases=[Case("ok", ensures={"witness_program_script": "result == bytes([0 if v == 0 else 0x50 + v, len(prog)]) + prog"})],
+    fuc=[SP, "bits.script.utils.p2wpkh_script_pubkey", "bits.script.utils.p2wsh_script_pubkey"],
+    options={"bounded_only": True, "bounded_inputs": _segwit_inputs,
+             "bound": "3 networks x versions 0..16 x every allowed program length (20/32 for v0, 2..40 otherwise) x {all-zero, all-0xff, random} "
+                      "= 5 634 addresses: scriptpubkey(address) == OP_n <len> <program> (BIP141).  BOUNDED, not proved"},
+    witnesses=[],
+))
